@@ -79,6 +79,7 @@ class Group:
         self.no_loop_contracts = False
         self.object_bits = None
         self.tier = 'quick'
+        self.native = None
 
 
 class Component:
@@ -210,6 +211,9 @@ def parse_spec(path):
                     g.timeout = int(v)
                 elif k == 'object_bits':
                     g.object_bits = int(v)
+                elif k == 'native':
+                    g.native = v
+                    g.level = 'bounded'
                 elif k == 'tier':
                     g.tier = v
                 elif k == 'loop_contracts':
